@@ -453,7 +453,7 @@ def _closure(repo, f: FuncInfo) -> list[FuncInfo]:
 def r6(ctx: Context, prs, sites) -> None:
     import json
 
-    from ..flow import aliased_store_mutations
+    from ..flow import aliased_store_mutations, class_live_returns
     from ..report import VERIF
 
     ctx.rule("R6", "effect agreement: an operation changes the in-memory store (direct write, mutation through a local alias, class-level registry) if and only if its SQLite sibling executes a non-read statement - a query that mutates on one backend only is not equivalent")
@@ -467,7 +467,7 @@ def r6(ctx: Context, prs, sites) -> None:
             for w in mem_store_writes(g.node):
                 if w.attr not in not_store:
                     mm.append((g.loc(w.node), f"{g.name} writes self.{w.attr} ({w.how})"))
-            for node, nm, attr in aliased_store_mutations(g.node):
+            for node, nm, attr in aliased_store_mutations(g.node, None, class_live_returns(g.cls)):
                 if attr not in not_store:
                     mm.append((g.loc(node), f"{g.name} mutates self.{attr} through the local alias `{nm}`"))
             for x in walk_no_nested(g.node):
